@@ -449,9 +449,11 @@ static inline int moveaxis_l2_repeated(sv_t shape, ai2_t source, ai2_t destinati
       && AXIS_OK(S[0], n) && AXIS_OK(S[1], n) && AXIS_OK(D[0], n) && AXIS_OK(D[1], n);
 }
 /* (b) lists utl::static_vector<int,8> (length 0..8 symbolic), rank 0..8 symbolic */
+/* bound of the bounded unit moveaxis_list.bounded (lists longer than this are not examined there) */
+#define MV_LIST_BOUND 3UL
 #define MV_LSV(A, v) long A[CAP] = {0}; for (unsigned long t_ = 0; t_ < CAP; t_++) if (t_ < SV_LEN(v)) A[t_] = SV_AT(v, t_)
 static inline int pre_verif_moveaxis_to_transpose_list(sv_t shape, svi_t source, svi_t destination)
-{ return SV_LEN(shape) <= CAP && SV_LEN(source) <= CAP && SV_LEN(destination) <= CAP; }
+{ return SV_LEN(shape) <= CAP && SV_LEN(source) <= MV_LIST_BOUND && SV_LEN(destination) <= MV_LIST_BOUND; }
 static inline int post_verif_moveaxis_to_transpose_list(sv_t shape, svi_t source, svi_t destination, opt_sv_t ret)
 {
   MV_LSV(S, source); MV_LSV(D, destination);
